@@ -77,6 +77,16 @@ fn pick_policy(rng: &mut Rng) -> Policy {
     }
 }
 
+/// Upper length limit of a world: mostly `small`; `big` in 30 % of thorough runs and in 6 % of quick runs (bulk paths that
+/// only exist above a size threshold must not be left to the thorough tier alone).
+fn pick_nmax(rng: &mut Rng, tier: Tier, small: usize, big: usize) -> usize {
+    if rng.chance(if tier.thorough { 0.3 } else { 0.06 }) {
+        big
+    } else {
+        small
+    }
+}
+
 fn pick_dir(rng: &mut Rng) -> Dir {
     if rng.chance(0.5) {
         Dir::Fwd
@@ -171,7 +181,7 @@ fn pick_fault(rng: &mut Rng) -> ShapeFault {
 fn gen_c11(rng: &mut Rng, tier: Tier) -> Case {
     let elem = pick_elem(rng, 10);
     let mut case = base_case("C11", elem, rng);
-    let nmax = if tier.thorough && rng.chance(0.3) { 1 << 14 } else { 2048 };
+    let nmax = pick_nmax(rng, tier, 2048, 1 << 14);
     let pk0 = *rng.pick(pks_for(elem));
     case.planners.push(pk0);
     let ninst = 1 + rng.below(3) as usize;
@@ -215,7 +225,7 @@ fn gen_c11(rng: &mut Rng, tier: Tier) -> Case {
 fn gen_c07(rng: &mut Rng, tier: Tier) -> Case {
     let elem = pick_elem(rng, 5);
     let mut case = base_case("C07", elem, rng);
-    let nmax = if tier.thorough && rng.chance(0.3) { 1 << 13 } else { 1024 };
+    let nmax = pick_nmax(rng, tier, 1024, 1 << 13);
     let ninst = 1 + rng.below(2) as usize;
     for _ in 0..ninst {
         // emphasis on butterflies (dedicated 2x path in the SSE code)
@@ -263,7 +273,7 @@ fn gen_c07(rng: &mut Rng, tier: Tier) -> Case {
 fn gen_c08(rng: &mut Rng, tier: Tier) -> Case {
     let elem = pick_elem(rng, 5);
     let mut case = base_case("C08", elem, rng);
-    let nmax = if tier.thorough && rng.chance(0.3) { 1 << 14 } else { 2048 };
+    let nmax = pick_nmax(rng, tier, 2048, 1 << 14);
     let ninst = 1 + rng.below(3) as usize;
     // AVX chains over cached bases: plan related lengths on one live planner
     let pk0 = *rng.pick(pks_for(elem));
@@ -303,7 +313,7 @@ fn gen_c08(rng: &mut Rng, tier: Tier) -> Case {
 fn gen_c09(rng: &mut Rng, tier: Tier) -> Case {
     let elem = pick_elem(rng, 5);
     let mut case = base_case("C09", elem, rng);
-    let nmax = if tier.thorough && rng.chance(0.3) { 1 << 13 } else { 1024 };
+    let nmax = pick_nmax(rng, tier, 1024, 1 << 13);
     let ninst = 1 + rng.below(2) as usize;
     for _ in 0..ninst {
         let spec = match rng.below(20) {
@@ -341,7 +351,7 @@ fn gen_c09(rng: &mut Rng, tier: Tier) -> Case {
 fn gen_c15(rng: &mut Rng, tier: Tier) -> Case {
     let elem = pick_elem(rng, 12);
     let mut case = base_case("C15", elem, rng);
-    let nmax = if tier.thorough && rng.chance(0.3) { 1 << 15 } else { 4096 };
+    let nmax = pick_nmax(rng, tier, 4096, 1 << 15);
     let ninst = 1 + rng.below(3) as usize;
     for _ in 0..ninst {
         case.insts.push(InstDef { spec: gen_spec(rng, nmax, elem, 20, 2), dir: pick_dir(rng), from_planner: None });
@@ -389,10 +399,8 @@ fn gen_c12(rng: &mut Rng, tier: Tier, miri: bool) -> Case {
         } else {
             64
         }
-    } else if tier.thorough && rng.chance(0.25) {
-        20000
     } else {
-        2048
+        pick_nmax(rng, tier, 2048, 20000)
     };
     let depth = if miri { 1 + rng.below(2) as u32 } else { 1 + rng.below(if tier.thorough { 4 } else { 3 }) as u32 };
     let ninst = if miri { 1 } else { 1 + rng.below(2) as usize };
@@ -498,7 +506,7 @@ fn gen_c10(rng: &mut Rng, tier: Tier, index: u64) -> Case {
     let elem = pick_elem(rng, 4);
     let mut case = base_case("C10", elem, rng);
     case.twin = true;
-    let nmax = if tier.thorough && rng.chance(0.25) { 1 << 16 } else { 1 << 13 };
+    let nmax = pick_nmax(rng, tier, 1 << 13, 1 << 16);
     let npl = 1 + rng.below(3) as usize;
     for _ in 0..npl {
         case.planners.push(*rng.pick(pks_for(elem)));
@@ -614,7 +622,7 @@ fn gen_c13(rng: &mut Rng, tier: Tier, index: u64) -> Case {
             slot += 1;
         }
     } else {
-        let nmax = if tier.thorough && rng.chance(0.3) { 1 << 16 } else { 1 << 13 };
+        let nmax = pick_nmax(rng, tier, 1 << 13, 1 << 16);
         for _ in 0..4 + rng.below(6) {
             let p = pools(nmax);
             // emphasis on primes whose Rader/Bluestein choice differs without AVX2, and their multiples
